@@ -54,7 +54,7 @@ def style_probes(sc):
                               ("async", "coroutine_callback")):
                 if m.get(key):
                     out.add("probe.style." + name)
-            if m.get("style") in ("callable", "decorator"):
+            if m.get("style") in ("callable", "decorator", "closure"):
                 out.add("probe.style.callback_by_" + m["style"])
     return sorted(out)
 
